@@ -102,6 +102,10 @@ def cases(tier, seed):
                 'restart-under-second-agent-first-leaves-first', 'restart-under-second-agent-second-leaves-first', 'shutdown-inside-start'):
         for st, tt in itertools.product((0, 1), (0, 1)):
             out.append({'k': 'lifecycle', 'how': how, 'sys': st, 'thr': tt})
+    # three handlers, every sequence of their starts and shutdowns (depth 5 quick / 7 thorough), sharded by the first operation
+    for first in range(6):
+        for st, tt in ((0, 0), (1, 1), (1, 0)):
+            out.append({'k': 'agents-bfs', 'depth': 5 if tier == 'quick' else 7, 'first': first, 'sys': st, 'thr': tt})
     # a second start() / a shutdown() arriving while the first start() is still in progress (parked in a plugin's resource())
     for second in ('start', 'shutdown'):
         for st in (0, 1):
@@ -284,6 +288,50 @@ def recycled_case(ctx, desc):
     elif obs.get('late_after') is not want:
         ctx.violation('C14/recycled-ident/thread-given-the-dead-threads-hook', f'{label}: afterwards the later thread has sys trace function '
                       f'{name(obs.get("late_after"))}, it is to have {name(want)}', desc)
+
+
+def agents_bfs(ctx, desc):
+    """All sequences (to the depth bound) of start / shutdown of three handlers on one thread with hooks already present; then every handler
+    is shut down (in either order) and the thread runs a few traced calls: the hooks are exactly what they were before the first start."""
+    n_agents, depth, first = 3, desc['depth'], desc['first']
+    pre = (fa if desc['sys'] else None, fb if desc['thr'] else None)
+    ops = [(a, o) for a in range(n_agents) for o in ('start', 'shutdown')]
+    name = lambda f: getattr(f, '__name__', f) if getattr(f, '__self__', None) is None else 'agent'      # noqa: E731
+
+    def touch():
+        return 1
+    saved = (sys.gettrace(), threading.gettrace())
+    seen_states = set()
+    try:
+        for rest in itertools.product(range(len(ops)), repeat=depth - 1):
+            seq = [ops[first]] + [ops[i] for i in rest]
+            for final in ('asc', 'desc'):
+                agents = [rig.Agent(plugins=[]) for _ in range(n_agents)]
+                sys.settrace(pre[0])
+                threading.settrace(pre[1])
+                started = [False] * n_agents
+                for a, o in seq:
+                    getattr(agents[a].handler, o)()
+                    started[a] = (o == 'start')
+                order = range(n_agents) if final == 'asc' else range(n_agents - 1, -1, -1)
+                for a in order:
+                    agents[a].handler.shutdown()
+                for _ in range(4):
+                    touch()
+                after = (sys.gettrace(), threading.gettrace())
+                sys.settrace(None)
+                ctx.case()
+                ctx.state((tuple(started), name(after[0]), name(after[1])))
+                if any(started[a] for a in range(n_agents)) and len({a for a, _ in seq}) > 1:
+                    ctx.nt((tuple(seq), final))
+                if after[0] is not pre[0] or after[1] is not pre[1]:
+                    ctx.violation('C14/agents/hooks-not-restored', f'hooks before: sys={name(pre[0])} threading={name(pre[1])}; sequence {seq}, then all shut down ({final}): '
+                                  f'sys={name(after[0])} threading={name(after[1])}', dict(desc, seq=[list(x) for x in seq], final=final))
+                    return
+        ctx.outcome(('agents-bfs', depth, first))
+    finally:
+        sys.settrace(saved[0])
+        threading.settrace(saved[1])
 
 
 def _second_deep(w):
@@ -540,6 +588,8 @@ def run_case(ctx, desc):
         return recycled_case(ctx, desc)
     if desc['k'] == 'lifecycle':
         return lifecycle_case(ctx, desc)
+    if desc['k'] == 'agents-bfs':
+        return agents_bfs(ctx, desc)
     if desc['k'] == 'overlap':
         return overlap_case(ctx, desc)
     faults = [desc['fault']] if 'fault' in desc else FAULTS
